@@ -88,6 +88,7 @@ def excluded(excl, c, fn, cfg):
 
 NOT_COVERED = []
 UNMATCHED = []
+SLOWEST = []
 
 
 def gather(prop, cfgs, only=None, tier='thorough'):
@@ -342,6 +343,11 @@ def check_property(prop, tier, configs=None, only=None, keep=False, write_eviden
         elif undecided or bad_canaries or problems or und_canaries:
             exit_code = 2
         wall = time.time() - t0
+        slow = sorted(((ob.result.get('solver_s', 0), ob.ident(), ','.join(ob.cfgs)) for ob in obs if ob.result), reverse=True)[:8]
+        for sec, ident, cf in slow:
+            if sec > 45:
+                print('SLOW: %.0fs %s [%s]' % (sec, ident, cf))
+        SLOWEST[:] = [{'seconds': round(sec, 1), 'function': ident, 'configurations': cf} for sec, ident, cf in slow]
         print('%s %s: %d functions under contract, %d CBMC obligations discharged, %d violations, %d known findings, %d undecided, %d canaries (%d bad), %.0fs' % (
             prop, tier, len(obs), n_discharged, len(viol_lines), len(known_hits), len(undecided), len(canaries), len(bad_canaries), wall))
         if write_evidence:
@@ -387,6 +393,7 @@ def write_ev(prop, tier, cfgs, obs, passed, violations, known_hits, undecided, c
             'extraction_problems': problems[:50],
             'partial_domain_obligations_discharged_not_counted_as_proof': n_partial,
             'api_functions_without_contract': sorted(set(UNMATCHED))[:200],
+            'slowest_obligations': list(SLOWEST),
             'not_covered': NOT_COVERED[:200],
             'not_covered_count': len(NOT_COVERED),
             'partial_domain_functions': sorted({ob.ident() + ': ' + ob.contract.partial for ob in obs if getattr(ob.contract, 'partial', None)})[:80],
